@@ -26,7 +26,10 @@ Verdicts(c) ==
      (IF c.expect = "refuse" /\ c.outcome = "ok" THEN {<<"NotRefused", c.what>>} ELSE {}) \cup
      (IF c.expect = "accept" /\ c.outcome # "ok" THEN {<<"WronglyRefused", c.what>>} ELSE {}) \cup
      (IF c.outcome # "ok" /\ c.outcome \notin {c.allowed[i] : i \in DOMAIN c.allowed}
-      THEN {<<"InternalAtSelect", c.outcome>>} ELSE {})
+      THEN {<<"InternalAtSelect", c.outcome>>} ELSE {}) \cup
+     \* the verdict on a selector is a function of the selector: repeating the activation, or reading the compiled
+     \* selector's attributes in between, gives the same outcome
+     (IF \E i \in DOMAIN c.again : c.again[i] # c.outcome THEN {<<"RefusalNotStable", c.what>>} ELSE {})
    ELSE {})
 Init == cid \in 1..Len(Cases) /\ done = FALSE
 Check == ~done /\ done' = TRUE /\ UNCHANGED cid
